@@ -109,6 +109,20 @@ func (c *Ctx) runRule(name string) (res *RuleResult) {
 		}
 		res.Obls[i].Key = k
 	}
+	// string-shape rules read concatenation trees; text assembled through strings.Builder / bytes.Buffer is not
+	// modelled, so a failing obligation in such a function (or in a function that prints its result) is no verdict
+	if stringShapeRules[name] {
+		un := c.unmodelledStringFuncs()
+		kept := res.Obls[:0]
+		for _, o := range res.Obls {
+			if !o.OK && un[o.Func] != "" {
+				res.undecided("%s: %s builds its text with %s, which the string-shape rules do not model: no verdict for %s", name, o.Func, un[o.Func], o.Key)
+				continue
+			}
+			kept = append(kept, o)
+		}
+		res.Obls = kept
+	}
 	if res.Desc == "" {
 		res.Desc = e.Desc
 	}
@@ -184,3 +198,5 @@ var commonTrustedBase = []string{
 	"mediacommon and go-astits are opaque callees that do not retain/mutate arguments beyond their documented behaviour",
 	"API usage contract: one goroutine calls Start, then Write*, then Close; any number of goroutines call Handle after Start returned",
 }
+
+var stringShapeRules = map[string]bool{"S1": true, "S2": true, "S3": true, "S4": true, "S5": true, "T1": true, "T2": true, "T3": true, "F9": true, "F4": true, "P5": true}
